@@ -30,6 +30,8 @@ def main(argv: list[str] | None = None) -> int:
     sub.add_parser('selftest')
     args = ap.parse_args(argv)
 
+    import warnings
+    warnings.simplefilter('ignore')
     import kopf
     repo = os.environ.get('KV_REPO', '/repo')
     if not os.path.abspath(kopf.__file__).startswith(os.path.abspath(repo) + os.sep):
